@@ -69,6 +69,41 @@ theorem reported_eq_data (h : Hist) (ht : Trusted h) (s : SDs) (hs : build .fixe
     report s = truth s.data :=
   report_of_good s (build_good h ht s hs)
 
+/-- **the event count of the file does not enter**: a file whose scalar dataset holds more (or
+fewer) events than `experiment:event count` says (partial appends, count edited) reports the
+summaries of exactly the values it hands out, for every count -/
+theorem reported_eq_exposed_any_count (h : Hist) (ht : Trusted h) (s : SDs)
+    (hs : build .fixed h = some s) (count : Nat) :
+    report s = truth (exposed count s) :=
+  reported_eq_data h ht s hs
+
+/-- a reader that hands out only the first `count` events while trusting the stored attributes
+(seeded change C20-12) is right when the count covers all stored events … -/
+theorem trimmed_reader_sound_of_count_ge (s : SDs) (hg : Good s) (count : Nat)
+    (hc : s.data.length ≤ count) :
+    reportTrimmed count s = truth (exposedTrimmed count s) := by
+  have ht : exposedTrimmed count s = s.data := List.take_of_length_le hc
+  have := report_of_good s hg
+  simpa [reportTrimmed, ht, report] using this
+
+/-- … or when no summary is stored (everything is computed from what is handed out) … -/
+theorem trimmed_reader_sound_without_attributes (s : SDs) (count : Nat)
+    (h : s.mn = none ∧ s.mx = none ∧ s.mean = none) :
+    reportTrimmed count s = truth (exposedTrimmed count s) := by
+  simp [reportTrimmed, truth, h.1, h.2.1, h.2.2]
+
+/-- … but not in general: stored events `[3, 5, 1, 9]` with true summaries, event count 2: the
+feature hands out `[3, 5]` (min 3, max 5, mean 4) and reports 1, 9, 9/2 -/
+theorem trimmed_reader_witness :
+    let s : SDs := { data := [fin 3, fin 5, fin 1, fin 9], mn := some (fin 1), mx := some (fin 9),
+                     mean := some (fin (9 / 2)) }
+    (s.mn = some (nanmin s.data) ∧ s.mx = some (nanmax s.data) ∧ s.mean = some (nanmean s.data)) ∧
+    exposedTrimmed 2 s = [fin 3, fin 5] ∧
+    truth (exposedTrimmed 2 s) = { mn := fin 3, mx := fin 5, mean := fin 4 } ∧
+    reportTrimmed 2 s = { mn := fin 1, mx := fin 9, mean := fin (9 / 2) } ∧
+    report s = truth (exposed 2 s) := by
+  decide +kernel
+
 /-- **re-writing and exporting heal**: whatever a file contained before — foreign, with wrong
 stored summaries — a feature stored in replace mode or exported through dclab reports the true
 summaries (no precondition) -/
